@@ -1,7 +1,47 @@
 (* C06 -- property theorems only: each is closed by [exact] of a lemma proved elsewhere. *)
 From Coq Require Import List NArith ZArith.
-From Muscle Require Import Refl.Base Refl.Server Refl.IsoModel Refl.IsoProofs.
+From Muscle Require Import Refl.Base Refl.Tree Refl.Matcher Refl.Session Refl.Server Refl.IsoModel Refl.IsoBase
+     Refl.IsoFrame Refl.IsoProofs Refl.IsoExamples.
+Import ListNotations.
 
+(* A client cannot give itself privileges. *)
 Theorem C06_setpriv_ignored : forall (M : MatchOps) fx nest xs s bits, xhandle fx nest xs s (XSetPriv bits) = xs.
 Proof. exact @setpriv_ignored. Qed.
 Print Assumptions C06_setpriv_ignored.
+
+(* FRAME.  For every state xs (reachable or not), every session s that holds no privilege, and every list of commands cs
+   -- any what-code, absolute paths, '..', wildcards, forged privilege bits and session fields, batches -- after the server
+   has taken the turns for all of them:
+     * the nodes outside s's directory are the same list (paths, payloads, order = child iteration order), with the same
+       subscriber tables up to s's own mark,
+     * every other session has the same identity, subscriptions and update limit, and is still attached,
+     * every other session has the same privilege bits, s still has none, and nobody is marked for removal.
+   It holds for the code as found and for every combination of the repairs (fx). *)
+Theorem C06_frame_own_subtree : forall (M : MatchOps) (fx : fixes) cs xs s ss,
+  get_session (xs_sv xs) s = Some ss -> unprivileged xs s -> xs_ducks xs = [] ->
+  let xs' := xrun fx (map (XCmd s) cs) xs in
+  foreign_view s (session_dir ss) (sv_tree (xs_sv xs')) = foreign_view s (session_dir ss) (sv_tree (xs_sv xs)) /\
+  others_params s (xs_sv xs') = others_params s (xs_sv xs) /\
+  idents (xs_sv xs') = idents (xs_sv xs) /\
+  priv_remove (xs_priv xs') s = priv_remove (xs_priv xs) s /\
+  unprivileged xs' s /\ xs_ducks xs' = [].
+Proof. exact @frame_own_subtree. Qed.
+Print Assumptions C06_frame_own_subtree.
+
+(* the handler alone, at any batch nesting depth, in any state *)
+Theorem C06_xhandle_xframe : forall (M : MatchOps) (fx : fixes) c nest xs s ss,
+  get_session (xs_sv xs) s = Some ss -> xframe s (session_dir ss) xs (xhandle fx nest xs s c).
+Proof. exact @xhandle_xframe. Qed.
+Print Assumptions C06_xhandle_xframe.
+
+(* between two turns nobody is marked for removal: the premise [xs_ducks xs = []] holds in every reachable state *)
+Theorem C06_no_ducks_between_turns : forall (M : MatchOps) (fx : fixes) evs, xs_ducks (xrun fx evs empty_xserver) = [].
+Proof. intros M fx evs. now apply xrun_no_ducks. Qed.
+Print Assumptions C06_no_ducks_between_turns.
+
+(* non-vacuity: a reachable state with an unprivileged session, foreign nodes carrying its marks, and a privileged neighbour *)
+Example C06_frame_premises_satisfiable :
+  let xs := ex_state as_found in
+  exists ss, get_session (xs_sv xs) 10%N = Some ss /\ unprivileged xs 10%N /\ xs_ducks xs = [] /\
+             length (foreign_view 10%N (session_dir ss) (sv_tree (xs_sv xs))) = 6 /\ has_priv xs 12%N 0%N = true.
+Proof. vm_compute. eexists. repeat split; reflexivity. Qed.
